@@ -99,8 +99,8 @@ class USBStreamInEndpoint(Elaboratable):
             tx_manager.flush            .eq(self.flush),
             tx_manager.discard          .eq(self.discard),
 
-            # ... and data-toggle reset on clear endpoint halt...
-            tx_manager.reset_sequence   .eq(clear_endpoint_halt),
+            # ... and data-toggle reset on clear endpoint halt and on SET_CONFIGURATION [USB 2.0: 9.1.1.5]...
+            tx_manager.reset_sequence   .eq(clear_endpoint_halt | interface.config_changed_in),
 
             # ... and our output stream...
             interface.tx                .stream_eq(tx_manager.packet_stream),
@@ -445,7 +445,8 @@ class USBStreamOutEndpoint(Elaboratable):
             ~self.interface.clear_endpoint_halt_in.direction & \
             (self.interface.clear_endpoint_halt_in.number == self._endpoint_number)
 
-        with m.If(clear_endpoint_halt):
+        # ... or a SET_CONFIGURATION request [USB 2.0: 9.1.1.5] ...
+        with m.If(clear_endpoint_halt | interface.config_changed_in):
             # ... reset the expected data toggle.
             m.d.usb += expected_data_toggle.eq(0)
 
